@@ -13,17 +13,17 @@ from vlib.prelude import SYMBOLIC, NoTracing, attempt, reached
 from vlib.props.c05 import deep_same
 from vlib.shapes import (DateS, DateTimeS, DecimalS, DictOf, EnumS, Float, Int, JVal, ListOf, Lit, NoneS, Src, Str, UUIDS_,
                          jparams)
-from vlib.universe import PointS
+from vlib.universe import LineS, PointS
 
 META = {
     "functions": ["typelib.unmarshals.routines.UnionUnmarshaller.__init__/__call__", "typelib.marshals.routines.UnionMarshaller.__init__/__call__",
                   "typelib.py.inspection.isoptionaltype/isuniontype/args", "member routines of the pool"],
     "bounds": {
         "quick": "pool of 12 member types (int,str,float,Decimal,date,datetime,UUID,list[int],dict[str,int],Point,Color,Literal['x','y']); "
-                 "a seed-rotated 36 of the 132 ordered pairs, None at every position of 6 triples, 3 spellings (Union/Optional/X|Y) on 4 pairs; "
+                 "a seed-rotated 36 of the 156 ordered pairs (plus fixed ones: classic traps, a structured member before its field types, a structure before the structure it holds), None at every position of 6 triples, 3 spellings (Union/Optional/X|Y) on 4 pairs; "
                  "x in J depth 1 (narrow leaves; strings incl. ISO date, UUID text, '1.5', 'abc') + instances of the pool classes; "
                  "marshal on instances of the pool; 20 s per condition",
-        "thorough": "all 132 ordered pairs, 220 ordered triples (seed-rotated), None at every position; 90 s per condition",
+        "thorough": "all 156 ordered pairs, 220 ordered triples (seed-rotated), None at every position; 90 s per condition",
     },
     "assumptions": ["every typelib cache is cleared before each union routine is built (caches keyed by Union equality, which ignores member order, are C12's subject)",
                     "any Exception of an independently built member routine counts as rejection"],
@@ -45,7 +45,8 @@ class _View:
         return f"memoryview({self.data!r})"
 
 
-INST += [_View(b"twelve"), _View(b"12"), _View(b"1.5"), {"x": "1", "y": "2"}, '{"x": "3", "y": 4}']
+INST += [_View(b"twelve"), _View(b"12"), _View(b"1.5"), {"x": "1", "y": "2"}, '{"x": "3", "y": 4}',
+         {"a": {"x": "1", "y": 2}, "b": {"x": 3, "y": "4"}, "label": 5}]
 
 
 def _mat(x):
@@ -54,7 +55,7 @@ def _mat(x):
 
 def pool():
     return [Int(), Str(), Float(), DecimalS(), DateS(), DateTimeS(), UUIDS_(), ListOf(Int()), DictOf(Str(), Int()), PointS(),
-            EnumS(M.Color), Lit("x", "y")]
+            EnumS(M.Color), Lit("x", "y"), LineS()]
 
 
 def _fresh(fn, T):
@@ -201,7 +202,7 @@ def tuples(tier, seed):
         sel = (pairs + pairs)[k:k + 36]
         # the classic traps are always in
         # ... and a structured member whose field types are themselves members declared after it
-        for must in ((0, 1), (1, 0), (3, 1), (1, 3), (4, 5), (5, 4), (2, 0), (0, 2), (9, 0), (0, 9), (9, 1)):
+        for must in ((0, 1), (1, 0), (3, 1), (1, 3), (4, 5), (5, 4), (2, 0), (0, 2), (9, 0), (0, 9), (9, 1), (12, 9), (9, 12)):
             if must not in sel:
                 sel.append(must)
     else:
